@@ -557,6 +557,12 @@ func (e *Encoder) loopBackEdge(fr *frame, li *loopInfo, u *ssa.BasicBlock) {
 		desc = li.autoVarDesc
 	}
 	if v == nil {
+		if e.contract != nil && len(e.inlineStack) == 0 && e.contract.Options[fmt.Sprintf("peer-terminated:%d", li.idx)] {
+			// "option peer-terminated:<loop>": the loop follows a chain supplied by the peer (e.g. the
+			// BMC's next-record IDs); its termination is not a property of this code and is not claimed
+			e.trusted[fmt.Sprintf("loop %d of %s ends when the peer's chain does (termination not claimed)", li.idx, shortFn(e.top))] = true
+			return
+		}
 		e.oblige("variant", fmt.Sprintf("loop%d", li.idx), "loop has a variant (none given or inferred)", c.False(), pos)
 		return
 	}
